@@ -109,7 +109,9 @@ def attribute_pooled(pid, ctx, repo):
     if not spec:
         return
     G = CallGraph(repo)
-    reach = G.reachable(G.entries(spec))
+    ents = G.entries(spec)
+    reach = G.with_state_writers(G.reachable(ents),
+                                 G.reachable(ents, strong=True))
     # a method found on a class also covers the definition it resolves to
     have = {(f['rule'], f['construct'], f['key']) for f in ctx.findings}
     for f in pooled_findings(repo):
